@@ -3466,6 +3466,15 @@ fn create_start_end_symbol_resolution<'data, P: Platform>(
             .iter()
             .find(|seg| resources.program_segments.segment_def(seg.id).is_loadable())
             .map(|seg| seg.sizes.mem_offset)?,
+
+        SymbolPlacement::TlsSegmentEnd => {
+            if let Some(seg) = resources.segment_layouts.tls_layout.as_ref() {
+                seg.alignment.align_up(seg.mem_offset + seg.mem_size)
+            } else {
+                let sec = resources.section_layouts.get(output_section_id::TBSS);
+                sec.mem_offset + sec.mem_size
+            }
+        }
     };
 
     Some(P::create_resolution(
